@@ -23,6 +23,8 @@ def run(chk):
     chk.rule("LAYOUT.count", "the stored path count counts exactly the non-empty paths that the writers emit")
     chk.rule("LAYOUT.polytree", "CPolyPath: writer and sizer have shape 2 + DIM*N + SUM children; the tree writer is sized by the node sizer")
     chk.rule("LAYOUT.header", "the first stored element is the expression passed to new T[...]")
+    chk.rule("LAYOUT.z-codec", "USINGZ: every store of pt.z into an array slot is Reinterpret<element type>(pt.z) (or a same-type copy) and every load "
+             "of a slot into z is Reinterpret<z_type>(slot) (or a same-type copy): the slot carries Z bit for bit in both directions")
     chk.rule("FORWARD.param", "each exported parameter reaches the native parameter of its meaning (by declaration name), none of another meaning")
     chk.rule("FORWARD.output", "each output parameter is assigned a marshalled result")
     chk.rule("SCALE.wrapper", "dimensional analysis of the D exports: S^1 at every integer-API length argument, S^0 at the return")
@@ -31,6 +33,11 @@ def run(chk):
         e4.rule_layout(db, chk, cfg)
         ex = E5(db, chk, cfg).exported()
         e4.rule_forward(db, chk, cfg, ex)
+        if "z" in cfg.split("+"):
+            nz = e4.rule_z_codec(db, chk, cfg)
+            if nz < 8:
+                from ..extract import AnalysisBroken
+                raise AnalysisBroken("LAYOUT.z-codec: only %d Z-slot accesses recognised in clipper.export.h (configuration %s)" % (nz, cfg))
         e8.rule_wrappers(db, chk, cfg, only=lambda f: f.file.endswith("clipper.export.h"))
     n = len(cfgs)
     chk.floor("LAYOUT.paths", 8 * n)
